@@ -146,6 +146,24 @@ def closure_type_of(ty):
 _CALL_SITES = {}
 
 
+_DISPATCH = {}
+
+
+def _dispatches_on_self(fns, callee):
+    """callee is a method a trait provides (default body, generic over Self) and at least one impl of the trait has its own body for it"""
+    key = (id(fns), callee)
+    if key not in _DISPATCH:
+        crec = fns[callee] if isinstance(fns.get(callee), dict) else getattr(fns.get(callee), "rec", None)
+        r = False
+        if crec and crec.get("kind") == "AssocFn" and crec.get("impl") is None and "Self" in (crec.get("generics") or []) and not callee.startswith("<"):
+            name = callee.rsplit("::", 1)[1]
+            trait = callee.rsplit("::", 1)[0]
+            suffix = " as %s>::%s" % (trait, name)
+            r = any(isinstance(p_, str) and p_.startswith("<") and p_.endswith(suffix) for p_ in fns)
+        _DISPATCH[key] = r
+    return _DISPATCH[key]
+
+
 def inline_once(rec, fns, vocab, depth_of, stats):
     """One pass over the blocks of `rec`: inline the first-level helper calls.  Returns True if something changed."""
     changed = False
@@ -165,6 +183,10 @@ def inline_once(rec, fns, vocab, depth_of, stats):
             else:
                 continue
         elif callee not in fns or not is_helper(callee, vocab):
+            continue
+        elif not t.get("resolved") and _dispatches_on_self(fns, callee):
+            # `T::method(..)` on a generic T whose trait provides a default body that some impl overrides: which body runs depends on T,
+            # the default must not be taken for it
             continue
         crec = fns[callee]
         if callee == rec["path"] or (len(crec["blocks"]) > MAX_BLOCKS and not (_CALL_SITES.get(callee) == 1 and len(crec["blocks"]) <= 4 * MAX_BLOCKS)):
@@ -265,6 +287,7 @@ ITER_NEXT_OF = {"core::slice::Iter": "<core::slice::Iter<'a, T> as core::iter::I
                 "core::slice::IterMut": "<core::slice::IterMut<'a, T> as core::iter::Iterator>::next",
                 "core::str::Bytes": "<core::str::Bytes as core::iter::Iterator>::next",
                 "core::str::Chars": "<core::str::Chars as core::iter::Iterator>::next"}
+ADAPTOR_NEXT_OF = {"core::iter::Enumerate": "<core::iter::Enumerate<I> as core::iter::Iterator>::next"}
 CONTAINS = {"core::ops::RangeInclusive::<Idx>::contains": "Le", "core::ops::Range::<Idx>::contains": "Lt"}
 TRY_BRANCH = "<core::result::Result<T, E> as core::ops::Try>::branch"
 FROM_RESIDUAL = "<core::result::Result<T, F> as core::ops::FromResidual<core::result::Result<core::convert::Infallible, E>>>::from_residual"
@@ -1328,6 +1351,8 @@ def desugar(rec, prog, stats):
                 continue
         if c in ("core::iter::Iterator::try_for_each", "core::iter::Iterator::for_each") and len(t["args"]) == 2 and not t["dest"]["proj"] \
                 and t.get("cargs") and ((t["cargs"][0].get("k") == "adt" and t["cargs"][0].get("path") in ITER_NEXT_OF) or
+                                        (t["cargs"][0].get("k") == "adt" and t["cargs"][0].get("path") in ADAPTOR_NEXT_OF
+                                         and _closure_arg_ty(prog, rec, t["args"][1]) is not None) or
                                         (t["cargs"][0].get("k") in ("other", "param") and _closure_arg_ty(prog, rec, t["args"][1]) is not None)) \
                 and all(a["k"] in ("move", "copy") and not a["place"]["proj"] for a in t["args"]) \
                 and rec["locals"][t["args"][1]["place"]["local"]].get("k") == "closure":
@@ -1339,6 +1364,10 @@ def desugar(rec, prog, stats):
             if c.endswith("for_each") and not c.endswith("try_for_each") and by_ref is False:
                 pass
             generic_it = ity.get("k") != "adt"
+            adaptor_next = ADAPTOR_NEXT_OF.get(ity.get("path")) if not generic_it else None
+            if adaptor_next:
+                # Enumerate<..> etc.: the item type is the closure's parameter type, `next` is the adaptor's own
+                generic_it = True
             if generic_it:
                 # an iterator of a generic type (`I::IntoIter`): `next` stays the unresolved trait call rustc emits for a plain `for` loop,
                 # the item type is the closure's parameter type
@@ -1371,13 +1400,17 @@ def desugar(rec, prog, stats):
                     if uses == 2:
                         del rec["blocks"][dfn[1]]["stmts"][dfn[2]]
             rec["blocks"].append({"stmts": [{"k": "assign", "place": {"local": r, "proj": []}, "rv": {"k": "ref", "mut": True, "place": it_place}, "line": line}],
-                                  "term": {"k": "call", "callee": "core::iter::Iterator::next", "resolved": None if generic_it else ITER_NEXT_OF[ity["path"]], "cargs": [ity],
-                                           "rargs": [] if generic_it else [elem],
+                                  "term": {"k": "call", "callee": "core::iter::Iterator::next", "resolved": adaptor_next if adaptor_next else (None if generic_it else ITER_NEXT_OF[ity["path"]]), "cargs": [ity],
+                                           "rargs": (ity.get("args") or []) if adaptor_next else ([] if generic_it else [elem]),
                                            "args": [{"k": "move", "place": {"local": r, "proj": []}}], "dest": {"local": nx, "proj": []}, "target": S, "line": line}})
             rec["blocks"].append({"stmts": [{"k": "assign", "place": {"local": d, "proj": []}, "rv": {"k": "discr", "place": {"local": nx, "proj": []}}, "line": line}],
                                   "term": {"k": "switch", "discr": {"k": "move", "place": {"local": d, "proj": []}}, "dty": {"k": "int", "bits": 64, "name": "isize"},
                                            "arms": [[0, N], [1, B]], "otherwise": U, "line": line}})
-            if is_try:
+            is_cf = is_try and dty.get("k") == "adt" and dty.get("path") == "core::ops::ControlFlow"
+            if is_cf:
+                okv = {"k": "aggregate", "agg": "adt", "path": "core::ops::ControlFlow", "variant": 0, "vname": "Continue", "args": dty.get("args", []), "is_enum": True,
+                       "ops": [{"k": "const", "ty": {"k": "tuple", "elems": []}}]}
+            elif is_try:
                 okv = {"k": "aggregate", "agg": "adt", "path": "core::result::Result", "variant": 0, "vname": "Ok", "args": dty.get("args", []), "is_enum": True,
                        "ops": [{"k": "const", "ty": {"k": "tuple", "elems": []}}]}
             else:
@@ -1394,11 +1427,15 @@ def desugar(rec, prog, stats):
             rec["blocks"].append({"stmts": [{"k": "assign", "place": {"local": d2, "proj": []}, "rv": {"k": "discr", "place": {"local": rr, "proj": []}}, "line": line}],
                                   "term": {"k": "switch", "discr": {"k": "move", "place": {"local": d2, "proj": []}}, "dty": {"k": "int", "bits": 64, "name": "isize"},
                                            "arms": [[0, H], [1, E]], "otherwise": U, "line": line}})
-            rec["blocks"].append({"stmts": [{"k": "assign", "place": copy.deepcopy(t["dest"]),
-                                             "rv": {"k": "aggregate", "agg": "adt", "path": "core::result::Result", "variant": 1, "vname": "Err", "args": dty.get("args", []), "is_enum": True,
-                                                    "ops": [{"k": "move", "place": {"local": rr, "proj": [{"k": "downcast", "variant": 1, "name": "Err"},
-                                                                                                      {"k": "field", "i": 0, "ty": (dty.get("args") or [None, {"k": "other"}])[1]}]}}]},
-                                             "line": line}], "term": {"k": "goto", "target": t["target"]}})
+            if is_cf:
+                rec["blocks"].append({"stmts": [{"k": "assign", "place": copy.deepcopy(t["dest"]), "rv": {"k": "use", "op": {"k": "move", "place": {"local": rr, "proj": []}}}, "line": line}],
+                                      "term": {"k": "goto", "target": t["target"]}})
+            else:
+                rec["blocks"].append({"stmts": [{"k": "assign", "place": copy.deepcopy(t["dest"]),
+                                                 "rv": {"k": "aggregate", "agg": "adt", "path": "core::result::Result", "variant": 1, "vname": "Err", "args": dty.get("args", []), "is_enum": True,
+                                                        "ops": [{"k": "move", "place": {"local": rr, "proj": [{"k": "downcast", "variant": 1, "name": "Err"},
+                                                                                                          {"k": "field", "i": 0, "ty": (dty.get("args") or [None, {"k": "other"}])[1]}]}}]},
+                                                 "line": line}], "term": {"k": "goto", "target": t["target"]}})
             rec["blocks"].append({"stmts": [], "term": {"k": "unreachable"}})
             blk["term"] = {"k": "goto", "target": H}
             stats.setdefault(rec["path"], []).append("desugar:" + c.rsplit("::", 1)[1])
